@@ -409,9 +409,12 @@ class Externals(object):
         if name == "match" and not getattr(rx, "opaque_predicate", False) and len(args) == 2 and (is_symstr(args[0]) or isinstance(args[0], str)):
             from . import rx as rxmod
             return rxmod.structural_match(interp, rx.pattern, args[0], args[1], node)
-        if name == "match" and getattr(rx, "opaque_predicate", False):
-            interp.ctx.assumed.add("A2:a configured parameterPattern.match(parameters) is an opaque predicate")
-            return interp.ctx.bool("re.match", record=True)
+        if name in ("match", "search", "fullmatch") and getattr(rx, "opaque_predicate", False):
+            # match / search / fullmatch of a configured pattern are three DIFFERENT opaque predicates of the text
+            interp.ctx.assumed.add("A2:a configured parameterPattern.%s(parameters) is an opaque predicate" % name)
+            sym = interp.ctx.bool("re." + name, record=True)
+            interp.ctx.ghost.setdefault("rx.opaque", []).append((name, sym, args[0] if args else None))
+            return sym
         h = self.regex_handlers.get((rx.pattern, name)) or self.regex_handlers.get(("*", name))
         if h is not None:
             return h(interp, rx, args, kwargs, node)
